@@ -127,6 +127,23 @@ class C16:
         s.add("print", 1)
         ip2 = s.add("parse_buf", 1, hx(text))
         s.add("dump", 1)
+        # remove every default-created top-level section and have the parser create it anew: the declaration of its
+        # sub-options must still be there (and must not be the caller's poisoned memory)
+        m2 = Model(schema, flags)
+        singles = [o for o in m2.root.opts if o.kind == "sec" and not (o.d["f"] & (F_MULTI | F_KEYSTRVAL)) and len(o.vals) == 1
+                   and not (o.d["f"] & F_TITLE) and o.d["n"] and "|" not in o.d["n"] and "=" not in o.d["n"]]
+        irm = []
+        if exp["accept"] and singles:
+            m2.parse(text)
+            m2.parse(text)
+            redo = ""
+            for o in [x for x in m2.root.opts if any(x.d is y.d for y in singles)]:
+                irm.append(s.add("rmsec", 1, hx(o.d["n"])))
+                o.vals = []
+                redo += "'%s' { }\n" % o.d["n"].replace("\\", "\\\\").replace("'", "\\'")
+            e3 = m2.parse(redo)
+            ip3 = s.add("parse_buf", 1, hx(redo))
+            id3 = s.add("dump", 1)
         s.add("free", 1)
         r = get_ex("asan").run(s)
         t = by_index(r.trace)
@@ -150,6 +167,13 @@ class C16:
                 d = self.annotations(m.root, tree)
                 if d:
                     fail = Failure("poison/declared-annotation", d)
+            if fail is None and irm and not e3.get("grey") and not m2.grey:
+                if t[ip3]["rc"] != (0 if e3["accept"] else 1):
+                    fail = Failure("recreated-section/verdict", "after removing %d sections, text %r: rc %d, model %s" % (len(irm), redo, t[ip3]["rc"], e3["accept"]))
+                elif e3["accept"]:
+                    d = compare(m2.root, dump_to_plain(t[id3]["tree"]))
+                    if d:
+                        fail = Failure("recreated-section/tree", "sections removed and created again by %r: %s" % (redo, d))
         return Outcome(classes=cl, nontrivial=deep and exp["accept"], failure=fail, sample={"flags": flags, "text": text[:300]})
 
     def annotations(self, msec, dsec, path=""):
